@@ -557,6 +557,26 @@ func (in *Interp) rangeStart(x Value) Value {
 		return it
 	case *StrVal:
 		return &IterVal{Str: a}
+	case *UnionVal:
+		// a map that is one of several after a join: the entries of every alternative under its guard
+		// (copies: values are those at the start of the loop)
+		it := &IterVal{}
+		for _, al := range a.Alts {
+			mv, ok := al.V.(*MapVal)
+			if !ok {
+				panic(in.unsupported("range over " + describe(x)))
+			}
+			if mv.M == nil {
+				continue
+			}
+			var part []*MapEntry
+			for _, e := range mv.M.Entries {
+				part = append(part, &MapEntry{K: e.K, V: e.V, G: in.St.And(al.G, e.G)})
+			}
+			in.sortEntries(part)
+			it.Snap = append(it.Snap, part...)
+		}
+		return it
 	}
 	panic(in.unsupported("range over " + describe(x)))
 }
